@@ -1221,7 +1221,8 @@ func (m *Model) readCrit(c *Conn, r Req, what string) error {
 	if m.ro.kind == roObj {
 		size = m.ro.obj.Size()
 	}
-	sat := m.ro.kind == roObj && r.Off < 1<<63 && (r.N == 0 || int64(r.Off)+int64(r.N) <= size)
+	// (no sum: offset + count may exceed 2^63)
+	sat := m.ro.kind == roObj && r.Off < 1<<63 && (r.N == 0 || int64(r.Off) <= size && int64(r.N) <= size-int64(r.Off))
 	if sat && r.N == 0 && unseekable(m.ro.obj, r.Off) {
 		sat = false
 	}
